@@ -144,7 +144,7 @@ func (r *vpC11Run) handler(kindOf func(id string) string, stream bool) RequestHa
 		for k, v := range ctx.QueryArgs().All() {
 			s.Query = append(s.Query, string(k)+"="+string(v))
 		}
-		kind := kindOf(s.ID)
+		kind, noRespFlag := strings.CutSuffix(kindOf(s.ID), "+noresp-flag")
 		if kind == "multipart" {
 			if f, err := ctx.MultipartForm(); err == nil && f != nil {
 				for k, vs := range f.Value {
@@ -223,6 +223,11 @@ func (r *vpC11Run) handler(kindOf func(id string) string, stream bool) RequestHa
 		ctx.Response.Header.SetContentType("resp/type" + id)
 		ctx.SetStatusCode(201)
 		ctx.SetBodyString("resp" + id)
+		if noRespFlag {
+			// a per-request decision that only means something together with Hijack; this request does not
+			// hijack, so it is answered normally, and the flag must be gone with the request
+			ctx.HijackSetNoResponse(true)
+		}
 		switch kind {
 		case "timeout":
 			ctx.TimeoutErrorWithCode("timeout-"+id, 503)
@@ -320,6 +325,9 @@ func TestVP_C11_Histories(t *testing.T) {
 			}
 			items = append(items, it)
 			kindByID[fmt.Sprint(it.ID)] = it.Kind
+			if it.Kind != "hijack" && rapid.IntRange(0, 3).Draw(t, "norespflag") == 0 {
+				kindByID[fmt.Sprint(it.ID)] += "+noresp-flag"
+			}
 		}
 		run := &vpC11Run{}
 		s := &Server{
